@@ -5,7 +5,7 @@
 import json, os, subprocess, sys, shutil, re
 sid = sys.argv[1]
 wt = '/tmp/seed/%s' % sid
-env = dict(os.environ, CARGO_NET_OFFLINE='true')
+env = dict(os.environ, CARGO_NET_OFFLINE='true', CARGO_PROFILE_DEV_DEBUG='0', CARGO_INCREMENTAL='0')
 def sh(cmd, **kw):
     return subprocess.run(cmd, shell=True, cwd=wt, env=env, capture_output=True, text=True, **kw)
 res = dict(id=sid)
